@@ -1,9 +1,11 @@
 (* C12 - executable model of templ's per-context registry and of everything that consults it:
    runtime.go (contextValue, getContext/InitializeContext, cssProcessor, RenderCSSItems,
    renderCSSItemsToBuilder, CSSMiddleware, CSSHandler), scripttemplate.go (ComponentScript.Render,
-   RenderScriptItems), once.go (OnceHandle.Once), and the order in which generated code
-   (generator.go: writeElement -> writeElementCSS, writeElementScript, attributes) calls them.
-   Definitions only. *)
+   RenderScriptItems), once.go (OnceHandle.Once with a block, with a fixed component, with neither), the children
+   slot of the context (runtime.go WithChildren, ClearChildren, GetChildren, renderChildren), and the order in which
+   generated code (generator.go: writeElement -> writeElementCSS, writeElementScript, attributes; writeTemplate's
+   prologue; writeBlockTemplElementExpression / writeSelfClosingTemplElementExpression; writeChildrenExpression)
+   calls them.  Definitions only. *)
 From Coq.Strings Require Import Byte String.
 From Coq Require Import List NArith Bool.
 Import ListNotations.
@@ -11,8 +13,9 @@ From V Require Import lib.Bytes spec.RegistrySpec.
 
 (* ---------- runtime.go: contextValue ---------- *)
 (* ss is the one string set shared by scripts and classes (keys "script_"+name, "class_"+id);
-   onceHandles is the set of handles; nonce is WithNonce's value *)
-Record reg := mkReg { ss : list bytes; hs : list N; nonce : bytes }.
+   onceHandles is the set of handles; nonce is WithNonce's value; kids is contextValue.children: the component
+   (here: the uses it makes) a caller left for the next component to pick up, None when the pointer is nil *)
+Record reg := mkReg { ss : list bytes; hs : list N; nonce : bytes; kids : option (list op) }.
 
 Definition script_ : bytes := bs "script_".
 Definition class_ : bytes := bs "class_".
@@ -27,10 +30,12 @@ Definition has (r : reg) (i : id) : bool :=
 (* addScript / addClass / setHasBeenRendered *)
 Definition add (r : reg) (i : id) : reg :=
   match i with
-  | Script n => mkReg ((script_ ++ n) :: ss r) (hs r) (nonce r)
-  | Class c => mkReg ((class_ ++ c) :: ss r) (hs r) (nonce r)
-  | Handle h => mkReg (ss r) (h :: hs r) (nonce r)
+  | Script n => mkReg ((script_ ++ n) :: ss r) (hs r) (nonce r) (kids r)
+  | Class c => mkReg ((class_ ++ c) :: ss r) (hs r) (nonce r) (kids r)
+  | Handle h => mkReg (ss r) (h :: hs r) (nonce r) (kids r)
   end.
+(* runtime.go WithChildren (Some c) / ClearChildren (None): v.children on the context value every derived context shares *)
+Definition set_kids (r : reg) (k : option (list op)) : reg := mkReg (ss r) (hs r) (nonce r) k.
 
 (* the loop shared by RenderScriptItems and renderCSSItemsToBuilder:
    for each item, if it has not been rendered, write it and record it *)
@@ -132,7 +137,10 @@ Inductive chunk :=
 | KCallAttr (s : script)                         (*  onclick="call" *)
 | KClose                                         (* ></div> *)
 | KMiddleware (l : list cls)                     (* no bytes: the context passed through a CSS middleware holding these classes *)
-| KOnceBegin (h : N) | KOnceEnd (h : N) | KOnceSkip (h : N).   (* no bytes: where a once body starts/ends, a skipped render *)
+| KOnceBegin (h : N) | KOnceEnd (h : N) | KOnceSkip (h : N)    (* no bytes: where a once body starts/ends, a skipped render *)
+| KOnceNone (h : N)                              (* no bytes: first render of a handle that has neither component nor children *)
+| KLeak (b : list op).                           (* a component rendered the children it found in the context although its
+                                                    caller gave it none: whatever b writes (C12_children_never_leak: never) *)
 
 (* the component classes an element's class attribute actually names *)
 Definition used_comps (fs : list cform) : list cls :=
@@ -148,7 +156,7 @@ Definition elem (r : reg) (fs : list cform) (sl : list script) : reg * list chun
        ++ map KCallAttr sl ++ [KClose]).
 
 (* runtime.go WithNonce: v.nonce = nonce on the context value every derived context shares *)
-Definition set_nonce (r : reg) (n : bytes) : reg := mkReg (ss r) (hs r) n.
+Definition set_nonce (r : reg) (n : bytes) : reg := mkReg (ss r) (hs r) n (kids r).
 
 (* NewCSSHandler keeps the ComponentCSSClass values only *)
 Definition handler_comps (l : list cssclass) : list cls := flat_map rules_class l.
@@ -170,14 +178,39 @@ Fixpoint step (r : reg) (o : op) {struct o} : reg * list chunk :=
   | OCSSItems fs => let '(r', n) := emit_new clid r (rules_l fs) in (r', [KStyleTag n])
   | OElem fs sl => elem r fs sl
   | OOnce h body =>
+      (* generator.go writeBlockTemplElementExpression: h.Once().Render(templ.WithChildren(ctx, block), buf), then
+         ctx = templ.ClearChildren(ctx).  once.go Once with o.c == nil: renderChildren, which takes the children out of
+         the context while they are rendered and puts them back when it returns *)
+      let r0 := set_kids r (Some body) in
+      if has r0 (Handle h) then (set_kids r0 None, [KOnceSkip h])
+      else let '(r', c) := seqf step (set_kids (add r0 (Handle h)) None) body in
+           (set_kids (set_kids r' (Some body)) None, KOnceBegin h :: c ++ [KOnceEnd h])
+  | OOnceC h body =>
+      (* generator.go writeSelfClosingTemplElementExpression: h.Once().Render(ctx, buf): no WithChildren, no ClearChildren
+         after it.  once.go Once with o.c != nil: o.c.Render(ctx, w); o.c is a template, whose prologue (generator.go
+         writeTemplate) takes the children out of the context: Var := templ.GetChildren(ctx); ctx = templ.ClearChildren(ctx);
+         body has no { children... } *)
       if has r (Handle h) then (r, [KOnceSkip h])
-      else let '(r', c) :=
-             (fix go (r : reg) (l : list op) : reg * list chunk :=
-                match l with
-                | [] => (r, [])
-                | o :: t => let '(r1, c1) := step r o in let '(r2, c2) := go r1 t in (r2, c1 ++ c2)
-                end) (add r (Handle h)) body in
+      else let '(r', c) := seqf step (set_kids (add r (Handle h)) None) body in
            (r', KOnceBegin h :: c ++ [KOnceEnd h])
+  | OOnceSelf h =>
+      (* the same call on a handle without component: renderChildren renders the children the context holds (and puts
+         them back) *)
+      if has r (Handle h) then (r, [KOnceSkip h])
+      else (add r (Handle h), match kids r with None => [KOnceNone h] | Some b => [KOnceBegin h; KLeak b; KOnceEnd h] end)
+  | OCall slot pre blk block post =>
+      (* caller: c().Render(templ.WithChildren(ctx, block), buf); ctx = templ.ClearChildren(ctx)  or  c().Render(ctx, buf);
+         callee prologue (writeTemplate): Var := templ.GetChildren(ctx); ctx = templ.ClearChildren(ctx);
+         { children... } (writeChildrenExpression): Var.Render(ctx, buf) *)
+      let r0 := if blk then set_kids r (Some block) else r in
+      let var := kids r0 in
+      let '(r1, c1) := seqf step (set_kids r0 None) pre in
+      let '(r2, c2) := if slot then
+                         (if blk then seqf step r1 block      (* var = Some block *)
+                          else (r1, match var with None => [] | Some b => [KLeak b] end))
+                       else (r1, []) in
+      let '(r3, c3) := seqf step r2 post in
+      (if blk then set_kids r3 None else r3, c1 ++ c2 ++ c3)
   end.
 Fixpoint run (r : reg) (l : list op) : reg * list chunk :=
   match l with
@@ -196,6 +229,7 @@ Definition log1 (c : chunk) : list ev :=
   | KOnceBegin h => [Def (Handle h)]
   | KOnceEnd h => [Use (Handle h)]
   | KOnceSkip h => [Use (Handle h)]
+  | KOnceNone h => [Def (Handle h); Use (Handle h)]
   | KMiddleware l => map (fun c => Reg (clid c)) l
   | _ => []
   end.
@@ -238,7 +272,8 @@ Definition render1 (c : chunk) : bytes :=
   | KClassAttr fs => bs " class=""" ++ join_sp (class_attr fs) ++ bs """"
   | KCallAttr s => bs " onclick=""" ++ scall s ++ bs """"
   | KClose => bs "></div>"
-  | KOnceBegin _ => [] | KOnceEnd _ => [] | KOnceSkip _ => [] | KMiddleware _ => []
+  | KOnceBegin _ => [] | KOnceEnd _ => [] | KOnceSkip _ => [] | KOnceNone _ => [] | KMiddleware _ => []
+  | KLeak _ => []
   end.
 Definition render (cs : list chunk) : bytes := flat_map render1 cs.
 
@@ -249,7 +284,7 @@ Record cfg := mkCfg { cnonce : bytes; cmw : option (list cssclass) }.
 Definition mw_comps (c : cfg) : list cls :=
   match cmw c with None => [] | Some l => handler_comps l end.
 (* CSSMiddleware.ServeHTTP on a request whose context carries nothing yet *)
-Definition init_reg (c : cfg) : reg := add_classes (mkReg [] [] (cnonce c)) (mw_comps c).
+Definition init_reg (c : cfg) : reg := add_classes (mkReg [] [] (cnonce c) None) (mw_comps c).
 Definition stylesheet (c : cfg) : bytes := match cmw c with None => [] | Some l => sheet_of l end.
 
 (* several contexts, uses interleaved in any order; each use names its context *)
